@@ -221,11 +221,14 @@ func c09R2(r *core.Report, sc *scanClosure) {
 		return
 	}
 	var innerDef ast.Node
+	var innerDefs []ast.Node
 	ast.Inspect(outer.Body, func(n ast.Node) bool {
 		if fs, ok := n.(*ast.ForStmt); ok && inner == nil && fs != outer {
-			ast.Inspect(fs.Body, func(m ast.Node) bool {
+			// the cursor may be advanced in the body or in the init/post clauses
+			ast.Inspect(fs, func(m ast.Node) bool {
 				if as, ok := m.(*ast.AssignStmt); ok && sc.defsCursor(as) {
 					inner, innerDef = fs, as
+					innerDefs = append(innerDefs, as)
 				}
 				return true
 			})
@@ -237,12 +240,21 @@ func c09R2(r *core.Report, sc *scanClosure) {
 		return
 	}
 	d := sc.g.PointOf(innerDef)
+	_ = innerDefs
 	bodyEntry := sc.g.BlockOf(kindForBody, outer)
 	isAt := func(f cfgx.Fact) bool { v, ok := varEqConst(info, f, sc.cursor, '@'); return ok && v }
 	aposFalse := func(f cfgx.Fact) bool { v, ok := varEqConst(info, f, sc.cursor, '\''); return ok && !v }
 	// (a) re-dispatch without Next() only through c == '@'
-	tp, found := sc.g.Reach(d, false, cfgx.Query{
-		Target: func(q cfgx.Point) bool { return q.B == bodyEntry && q.I == 0 },
+	found := false
+	var tp cfgx.Point
+	for _, dn := range innerDefs {
+		dp := sc.g.PointOf(dn)
+		if t2, f2 := sc.reachDispatch(dp, bodyEntry, isAt); f2 {
+			found, tp = true, t2
+		}
+	}
+	_, _ = sc.g.Reach(d, false, cfgx.Query{
+		Target: func(q cfgx.Point) bool { return false },
 		Cut:    func(q cfgx.Point) bool { return sc.defsCursor(q.Node()) },
 		CutEdge: func(b *cfgBlock, k int) bool {
 			if len(b.Succs) != 2 || len(b.Nodes) == 0 {
@@ -266,9 +278,12 @@ func c09R2(r *core.Report, sc *scanClosure) {
 		"a path re-enters the dispatch loop with the placeholder's terminator still in the cursor without knowing it is '@' (e.g. the nil-argument `continue`): an apostrophe delimiter is then emitted by the default arm (`T(\"a@x'b\")` with empty x renders `a'b`)")
 	// (b) emits of the terminator are guarded by c != '\''
 	n := 0
-	sc.g.Reach(d, false, cfgx.Query{
+	seenEmit := map[cfgx.Point]bool{}
+	for _, dn := range innerDefs {
+	sc.g.Reach(sc.g.PointOf(dn), false, cfgx.Query{
 		Target: func(q cfgx.Point) bool {
-			if q.Node() != nil && sc.emitsCursor(q.Node()) {
+			if q.Node() != nil && sc.emitsCursor(q.Node()) && !seenEmit[q] {
+				seenEmit[q] = true
 				n++
 				facts := sc.g.FactsAt(q)
 				ok := false
@@ -284,6 +299,7 @@ func c09R2(r *core.Report, sc *scanClosure) {
 		},
 		Cut: func(q cfgx.Point) bool { return sc.defsCursor(q.Node()) || (q.B == bodyEntry && q.I == 0) },
 	})
+	}
 	if n == 0 {
 		r.Bad(rule, sc.f, "terminator is emitted only when it is not the apostrophe", innerDef.Pos(), "no emit of a non-delimiter terminator found: the character following a placeholder would be lost")
 	}
@@ -336,9 +352,9 @@ func c09R2(r *core.Report, sc *scanClosure) {
 			return true
 		})
 	}
-	collect(inner.Body, info, sc.cursor, 0)
-	want := []string{">=65", "<=90", ">=97", "<=122", ">=48", "<=57", "==95", "==39"}
-	allowed := map[string]bool{"==-1": true, "==64": true, "!=-1": true, "!=39": true}
+	collect(inner, info, sc.cursor, 0)
+	want := []string{">=65", "<=90", ">=97", "<=122", ">=48", "<=57", "==95"}
+	allowed := map[string]bool{"==-1": true, "==64": true, "!=-1": true, "!=39": true, "==39": true}
 	missing, extra := []string{}, []string{}
 	for _, w := range want {
 		allowed[w] = true
@@ -401,7 +417,12 @@ func c09R4(r *core.Report, sc *scanClosure) {
 	info := sc.f.Info()
 	found := false
 	for _, br := range sc.g.Branches() {
-		v := core.VarOf(info, br.Cond)
+		// `ok` or `!ok` of a comma-ok lookup in the argument map
+		atoms := cfgx.Atoms(br.Cond, true)
+		if len(atoms) != 1 {
+			continue
+		}
+		v := core.VarOf(info, atoms[0].Cond)
 		if v == nil {
 			continue
 		}
@@ -414,7 +435,11 @@ func c09R4(r *core.Report, sc *scanClosure) {
 			continue
 		}
 		found = true
-		start := cfgx.Point{B: br.B.Succs[1], I: 0}
+		absent := 1 // successor taken when ok is false
+		if !atoms[0].Val {
+			absent = 0 // the condition is !ok
+		}
+		start := cfgx.Point{B: br.B.Succs[absent], I: 0}
 		tp, escapes := sc.g.Reach(start, true, cfgx.Query{
 			Target: func(q cfgx.Point) bool {
 				return sc.g.IsExit(q) || (q.Node() != nil && sc.isYieldCall(q.Node()) != nil) || (q.B.Kind == kindForBody && q.I == 0)
@@ -814,4 +839,29 @@ func c09R7(p *core.Program, r *core.Report) {
 		}
 		r.Check(ok, rule, f, "Block yields its own text once, verbatim", f.Node().Pos(), "yield(string(v))", "Block does not yield exactly its own text")
 	}
+}
+
+// reachDispatch: from a definition of the cursor inside the name scan, is the
+// start of the next outer iteration reachable without a new Next() and
+// without passing the true edge of `c == '@'`?
+func (sc *scanClosure) reachDispatch(d cfgx.Point, bodyEntry *cfgBlock, isAt func(cfgx.Fact) bool) (cfgx.Point, bool) {
+	return sc.g.Reach(d, false, cfgx.Query{
+		Target: func(q cfgx.Point) bool { return q.B == bodyEntry && q.I == 0 },
+		Cut:    func(q cfgx.Point) bool { return sc.defsCursor(q.Node()) },
+		CutEdge: func(b *cfgBlock, k int) bool {
+			if len(b.Succs) != 2 || len(b.Nodes) == 0 {
+				return false
+			}
+			e, ok := b.Nodes[len(b.Nodes)-1].(ast.Expr)
+			if !ok {
+				return false
+			}
+			for _, a := range cfgx.Atoms(e, k == 0) {
+				if isAt(a) {
+					return true
+				}
+			}
+			return false
+		},
+	})
 }
